@@ -11,9 +11,11 @@ import RV.Base.Proto
     read skolemize | qname <term> | cbd <node>
     read copy                -> ok    compare functions, set operators (work on copies)
     read ctxs | trig | jsonld | jsonldbuggy | graphs
-    read query <gvar 0|1> <f:g|n:g,…|-> <load 0|1> <kind s|a|c|d> <GRAPH consts g,…|->
+    read query <gvar 0|1> <f:g|n:g,…|-> <load 0|1> <kind s|a|c|d> <GRAPH consts g,…|-> <dgUnion 0|1> <body spo|s|gspo|x>
                                       dataset clause in order; i50/i51 = loadable documents
-    read contains4 <g> <how 0|1> | quads4 <g> <how> | triples4 <g> <how> | triplesctx <g>
+    read contains4 <g> <how 0|1> <s p o> | quads4 … | triples4 … | triplesctx <g> <s p o>     (`*` = wildcard)
+    read len | iter | triples <s p o> | contains3 <s p o>
+    read agglen <g,g,…> | aggtriples <g,…> <s p o> | aggcontains … | aggquads …     ReadOnlyGraphAggregate over views
     foreign <g> s p o        -> ok    `_graph(foreign graph)`: the documented WRITE (not a ReadOp)
     obs                      -> `s,p,o,g … | names… | bound namespace ids…`   (unsorted; the harness sorts both sides)
   round g:
@@ -44,9 +46,32 @@ def gnames? (s : State) (w : String) : Option (List GName) :=
 
 def qkind? (w : String) : Option QKind :=
   if w = "s" then some .select else if w = "a" then some .ask
-  else if w = "c" then some (.construct (fun r => r.map (fun x => (x, 10, x))))
+  else if w = "c" then some (.construct (fun r => match r with | [a, b, c] => [(a, b, c)] | _ => []))   -- CONSTRUCT { ?s ?p ?o }
   else if w = "d" then some (.describe (fun x => 4 ≤ x && x ≤ 9))
   else none
+
+/-- graph names inside result rows -/
+def gcode : GName → Nat
+  | .dflt => 0
+  | .iri n => 100 + n
+  | .bnode n => 200 + n
+
+/-- the evaluation proper, for the query shapes the harness can observe exactly:
+    spo  = `{ ?s ?p ?o }` projected to ?s ?p ?o;  s = the same projected to ?s (DESCRIBE ?s);
+    gspo = `GRAPH ?g|<g> { ?s ?p ?o }` projected to ?g ?s ?p ?o;  x = anything else (answer not compared) -/
+def body? (w : String) : Option (View → List (List Nat)) :=
+  if w = "spo" then some (fun v => v.dflt.map (fun t => [t.1, t.2.1, t.2.2]))
+  else if w = "s" then some (fun v => v.dflt.map (fun t => [t.1]))
+  else if w = "gspo" then
+    some (fun v => v.named.flatMap (fun b => b.2.map (fun t => [gcode b.1, t.1, t.2.1, t.2.2])))
+  else if w = "x" then some (fun v => [v.dflt.map (·.1)])
+  else none
+
+def pat? (a b c : String) : Option Pat := do
+  let a ← optNat? a
+  let b ← optNat? b
+  let c ← optNat? c
+  pure (a, b, c)
 
 /-- driver state: the model state, the harness's term → namespace table, the view the reads go through -/
 structure D where
@@ -132,15 +157,27 @@ def readOp? (d : D) (s : State) : List String → Option ReadOp
   | ["cbd", n] => n.toNat?.map (fun n => .cbd n (fun x => 4 ≤ x && x ≤ 9))
   | ["jsonld"] => some .serializeJsonld
   | ["graphs"] => some .graphs
-  | ["query", gv, cl, lg, kind, consts] => do
+  | ["query", gv, cl, lg, kind, consts, dgu, body] => do
     let cl ← clauses? s cl
     let consts ← gnames? s consts
     let k ← qkind? kind
-    pure (.query ⟨cl, gv = "1", consts, lg = "1", harnessDocs, fun v => [v.dflt.map (·.1)], k⟩)
-  | ["contains4", g, how] => do let g ← gname? s g; let c ← ctxArg g how; pure (.contains4 anyPat c)
-  | ["quads4", g, how] => do let g ← gname? s g; let c ← ctxArg g how; pure (.quads4 anyPat c)
-  | ["triples4", g, how] => do let g ← gname? s g; let c ← ctxArg g how; pure (.triples4 anyPat c)
-  | ["triplesctx", g] => do let g ← gname? s g; pure (.triplesCtx anyPat g)
+    let b ← body? body
+    pure (.query ⟨cl, gv = "1", consts, lg = "1", harnessDocs, b, k, dgu = "1"⟩)
+  | ["agglen", gs] => (gnames? s gs).map .aggLen
+  | ["aggtriples", gs, a, b, c] => do let gs ← gnames? s gs; let p ← pat? a b c; pure (.aggTriples gs p)
+  | ["aggcontains", gs, a, b, c] => do let gs ← gnames? s gs; let p ← pat? a b c; pure (.aggContains gs p)
+  | ["aggquads", gs, a, b, c] => do let gs ← gnames? s gs; let p ← pat? a b c; pure (.aggQuads gs p)
+  | ["len"] => some .len
+  | ["iter"] => some .iter
+  | ["triples", a, b, c] => (pat? a b c).map .slice
+  | ["contains3", a, b, c] => (pat? a b c).map .contains3
+  | ["contains4", g, how, a, b, c] => do
+    let g ← gname? s g; let c' ← ctxArg g how; let p ← pat? a b c; pure (.contains4 p c')
+  | ["quads4", g, how, a, b, c] => do
+    let g ← gname? s g; let c' ← ctxArg g how; let p ← pat? a b c; pure (.quads4 p c')
+  | ["triples4", g, how, a, b, c] => do
+    let g ← gname? s g; let c' ← ctxArg g how; let p ← pat? a b c; pure (.triples4 p c')
+  | ["triplesctx", g, a, b, c] => do let g ← gname? s g; let p ← pat? a b c; pure (.triplesCtx p g)
   | _ => none
 
 def stepSt (d : D) (s : State) : List String → Option (State × String)
